@@ -267,6 +267,10 @@ func checkRounds[C any](t *testing.T, name string, n int, gen func(*rapid.T) C, 
 			}
 			return f
 		}
+		if env("VERIF_SHRINKTIME") == "" {
+			// several findings per test are shrunk one after the other: keep each short
+			_ = flag.Set("rapid.shrinktime", "5s")
+		}
 		ok := t.Run(fmt.Sprintf("round%d", round), func(t *testing.T) { vh.Check(t, name, n, gen, wrapped) })
 		if ok || last == "" || vh.Replaying() {
 			return
